@@ -1621,12 +1621,17 @@ func runC16(c *RunCtx) {
 	// (otherwise repeatability is broken without any buffer reuse: C06's subject, not this one's).
 	if t.Intn(2) == 0 {
 		var b0 bytes.Buffer
-		if r := tryEncode(Clone(s.pre), &b0); r.Panic == nil && r.Err == nil && bytes.Equal(b0.Bytes(), snap) {
+		ctrl := Clone(s.pre)
+		if r := tryEncode(ctrl, &b0); r.Panic == nil && r.Err == nil && bytes.Equal(b0.Bytes(), snap) {
 			recycleBuf(buf)
 			recycleBuf(&b0)
 			c.Fire("pool.recycle")
 			var b1 bytes.Buffer
-			r1 := tryEncode(Clone(s.pre), &b1)
+			again := Clone(s.pre)
+			if t.Intn(2) == 0 {
+				again = ctrl // the very object that was encoded into one of the recycled buffers
+			}
+			r1 := tryEncode(again, &b1)
 			c.Oracle("encoding-survives-recycling-of-earlier-output-buffers")
 			if r1.Panic != nil || r1.Err != nil || !bytes.Equal(b1.Bytes(), snap) {
 				c.Fail("C16/encoding-changed-by-buffer-reuse", name, "a %s was encoded twice with equal bytes; then the two output buffers were overwritten and reset by their owner; an equal message encoded afterwards gives different bytes (first difference at %d, err=%v panic=%v) — the library kept a view of a caller's output buffer", name, firstDiff(b1.Bytes(), snap), r1.Err, r1.Panic)
